@@ -218,9 +218,50 @@ func (g *Gen) elemWriteHeaps(et types.Type, ws *WriteSet) {
 }
 
 // instrWrites adds the direct writes of an instruction; calls are returned for the caller to resolve.
+// freshRoot: the address is a location inside an object or array allocated by this very function
+// (a composite literal, a local, a variadic argument array, a make) within `scope` (nil: anywhere
+// in the function). A write there is not a side effect on memory that existed before.
+func freshRoot(addr ssa.Value, scope map[*ssa.BasicBlock]bool) bool {
+	for depth := 0; depth < 16; depth++ {
+		switch a := addr.(type) {
+		case *ssa.Alloc:
+			return scope == nil || scope[a.Block()]
+		case *ssa.FieldAddr:
+			addr = a.X
+		case *ssa.IndexAddr:
+			switch x := a.X.(type) {
+			case *ssa.Alloc:
+				addr = x
+			case *ssa.Slice:
+				if al, ok := x.X.(*ssa.Alloc); ok {
+					addr = al
+				} else if ms, ok := x.X.(*ssa.MakeSlice); ok {
+					return scope == nil || scope[ms.Block()]
+				} else {
+					return false
+				}
+			case *ssa.MakeSlice:
+				return scope == nil || scope[x.Block()]
+			default:
+				return false
+			}
+		default:
+			return false
+		}
+	}
+	return false
+}
+
 func (g *Gen) instrWrites(in ssa.Instruction, ws *WriteSet) (callees []*ssa.Function) {
+	return g.instrWritesIn(in, ws, nil)
+}
+
+func (g *Gen) instrWritesIn(in ssa.Instruction, ws *WriteSet, scope map[*ssa.BasicBlock]bool) (callees []*ssa.Function) {
 	switch in := in.(type) {
 	case *ssa.Store:
+		if freshRoot(in.Addr, scope) {
+			return
+		}
 		g.addrHeaps(in.Addr, ws)
 	case *ssa.UnOp:
 		if gl, ok := in.X.(*ssa.Global); ok {
@@ -281,6 +322,15 @@ func (g *Gen) instrWrites(in ssa.Instruction, ws *WriteSet) (callees []*ssa.Func
 			return
 		}
 		if sc := cm.StaticCallee(); sc != nil {
+			if (sc.String() == "encoding/xml.Unmarshal" || sc.String() == "encoding/json.Unmarshal") && len(cm.Args) == 2 {
+				// documented effect: writes only into the value its second argument points to
+				if hs, ok := g.unmarshalTargetHeaps(cm.Args[1]); ok {
+					for _, h := range hs {
+						ws.Names[h] = true
+					}
+					return
+				}
+			}
 			callees = append(callees, sc)
 			return
 		}
@@ -336,6 +386,8 @@ func (g *Gen) externalWrites(fn *ssa.Function, ws *WriteSet) {
 	case "encoding/xml.Unmarshal", "encoding/json.Unmarshal":
 		ws.Top = true
 		ws.TopWhy = fn.String()
+	case "(*encoding/xml.Decoder).Token", "encoding/xml.NewDecoder":
+		ws.Names[xmlRemHeap(g)] = true
 	case "(*encoding/xml.Encoder).Encode", "(*encoding/xml.Encoder).EncodeElement":
 		n, seq := encHeaps(g)
 		ws.Names[n] = true
@@ -424,7 +476,7 @@ func (g *Gen) loopWrites(fn *ssa.Function, li *loopInfo) *WriteSet {
 	ws := newWS()
 	for b := range li.blocks {
 		for _, in := range b.Instrs {
-			for _, cal := range g.instrWrites(in, ws) {
+			for _, cal := range g.instrWritesIn(in, ws, li.blocks) {
 				if g.opaqueRepoFn(cal) {
 					continue
 				}
@@ -449,4 +501,66 @@ func (g *Gen) loopWrites(fn *ssa.Function, li *loopInfo) *WriteSet {
 		}
 	}
 	return ws
+}
+
+
+// unmarshalTargetHeaps: the heaps that may be written when a decoder fills the object `v` points to
+// (v is the `any` argument of Unmarshal, built from a *T): every field heap of every struct type reachable
+// from T through fields, pointers and slices, plus the cell heaps of slice elements.
+func (g *Gen) unmarshalTargetHeaps(v ssa.Value) (hs []string, ok bool) {
+	mi, isMI := v.(*ssa.MakeInterface)
+	if !isMI {
+		return nil, false
+	}
+	pt, isPtr := mi.X.Type().Underlying().(*types.Pointer)
+	if !isPtr {
+		return nil, false
+	}
+	defer func() {
+		if r := recover(); r != nil {
+			if _, isSub := r.(ErrSubset); isSub {
+				hs, ok = nil, false
+				return
+			}
+			panic(r)
+		}
+	}()
+	seen := map[string]bool{}
+	set := map[string]bool{}
+	var visit func(t types.Type)
+	visit = func(t types.Type) {
+		key := types.TypeString(t, nil)
+		if seen[key] {
+			return
+		}
+		seen[key] = true
+		switch u := t.Underlying().(type) {
+		case *types.Pointer:
+			visit(u.Elem())
+		case *types.Slice:
+			if !isStruct(u.Elem()) {
+				set[g.TE.CellHeap(u.Elem())] = true
+			}
+			visit(u.Elem())
+		case *types.Struct:
+			for _, h := range g.structWriteHeaps(t, "") {
+				set[h] = true
+			}
+			for i := 0; i < u.NumFields(); i++ {
+				visit(u.Field(i).Type())
+			}
+		case *types.Map:
+			d, vv, _, _ := g.TE.MapHeaps(t)
+			set[d], set[vv] = true, true
+			visit(u.Elem())
+		case *types.Interface:
+			panic(ErrSubset{"unmarshal into interface"})
+		}
+	}
+	visit(pt.Elem())
+	for h := range set {
+		hs = append(hs, h)
+	}
+	sort.Strings(hs)
+	return hs, true
 }
